@@ -274,6 +274,59 @@ pub fn run(ctx: &Ctx) -> i32 {
         per_kind.push(json!({"sketcher": kind.name, "pre_histories": o.pre_histories, "post_inputs": o.post_inputs, "executions": o.execs,
             "distinct_fresh_results": o.distinct_fresh, "pre_histories_with_flag": o.flags}));
     }
+    // sketch sizes around 2^16: a few histories per sketcher type
+    {
+        let big: Vec<Kind> = catalogue(&ctx.pick(vec![65_537usize], vec![65_535, 65_536, 65_537]), true)
+            .into_iter()
+            .filter(|k| k.has_reinit || k.name.starts_with("ProbOrdMinHash2"))
+            .filter(|k| ctx.pick(!k.name.starts_with("RevOptDens"), true))
+            .collect();
+        let res: Vec<(u64, Option<(String, Vec<Op>, Vec<Op>, String)>)> = big
+            .par_iter()
+            .map(|kind| {
+                let batch = kind.min_batch > 1 || !kind.streaming_items;
+                let pres: Vec<Vec<Op>> = if batch {
+                    vec![vec![Op::Slice(vec![3, 3, 1, 2, 2, 7])], vec![Op::Slice(vec![1, 2, 3]), Op::Slice(vec![9, 8, 7, 9])]]
+                } else {
+                    let mut v = vec![vec![Op::Burst(100, 12), Op::Item(1)], vec![Op::Item(2), Op::Slice(vec![0, 4])]];
+                    if kind.has_end {
+                        v.push(vec![Op::Item(1), Op::End, Op::Item(2)]);
+                    }
+                    if kind.has_merge {
+                        v.push(vec![Op::Item(1), Op::MergeFixed]);
+                    }
+                    v
+                };
+                let post: Vec<Op> = if batch {
+                    vec![Op::Slice(vec![0, 5, 9, 5])]
+                } else if kind.has_end {
+                    vec![Op::Item(5), Op::Slice(vec![0, 5, 9])]
+                } else {
+                    vec![Op::Item(5), Op::Item(0), Op::Item(9)]
+                };
+                let fresh = run_case(kind, &[], &post, None);
+                let mut n = 0;
+                for pre in pres {
+                    n += 1;
+                    let obs = run_case(kind, &pre, &post, None);
+                    if obs != fresh {
+                        return (n, Some((kind.name.clone(), pre, post.clone(), "differs from a fresh instance".to_string())));
+                    }
+                }
+                (n, None)
+            })
+            .collect();
+        for (n, bad) in res {
+            tot_execs += n;
+            if let Some((name, pre, post, what)) = bad {
+                ctx.violation(
+                    &format!("reset:{}", name.split(" m=").next().unwrap_or(&name)),
+                    &format!("{}: history {:?}, then reset, then {:?}: {}", name, pre, post, what),
+                    json!({"kind": "reset", "sketcher": name, "pre": ops_json(&pre), "post": ops_json(&post)}),
+                );
+            }
+        }
+    }
     let (long_n, long_ops, long_bad) = long_histories(&kinds);
     tot_execs += long_n;
     if let Some((name, c, what)) = long_bad {
@@ -293,7 +346,7 @@ pub fn run(ctx: &Ctx) -> i32 {
         "exhaustive": true,
         "evaluations": tot_execs,
         "distinct_nontrivial": tot_distinct,
-        "rule": "for every sketcher with reinit/reset (SuperMinHash f32/f64, SuperMinHash2 u32/u64, SetSketcher u8/u16/u32 incl. overflowing and clipping parameter sets, both densified sketchers f32/f64, ProbMinHash2) and ProbOrdMinHash2's self-clearing hash_set, sizes {1,3,16} (+2,7,64): ALL pre-histories up to depth 3 (4) over {3 items, burst of 12, slice, empty slice (error path), end_sketch, merge, reinit} x ALL post-inputs of depth 1..2 (3): observation (all views, cardinal stats, overflow count, registers) after the reset must be bit-identical to a fresh instance fed the post-input; distinct = distinct fresh results",
+        "rule": "for every sketcher with reinit/reset (SuperMinHash f32/f64, SuperMinHash2 u32/u64, SetSketcher u8/u16/u32 incl. overflowing and clipping parameter sets, both densified sketchers f32/f64, ProbMinHash2) and ProbOrdMinHash2's self-clearing hash_set, sizes {1,3,16} (+2,7,64) (and 2-4 fixed histories per sketcher type at size 65537 (65535, 65536)): ALL pre-histories up to depth 3 (4) over {3 items, burst of 12, slice, empty slice (error path), end_sketch, merge, reinit} x ALL post-inputs of depth 1..2 (3): observation (all views, cardinal stats, overflow count, registers) after the reset must be bit-identical to a fresh instance fed the post-input; distinct = distinct fresh results",
         "sketcher_kinds": kinds.len(),
         "long_histories": {"cases": long_n, "operations": long_ops, "what": "per sketcher kind (largest size of the tier): c reset cycles for every c in 254..=258 and 65534..=65538 (first cycle streams items 1,2; the others stream other items), then reset and the post-input {1,2}: equal to a fresh instance"},
         "pre_depth": pre_depth,
@@ -313,7 +366,8 @@ pub fn run(ctx: &Ctx) -> i32 {
 
 pub fn replay(_ctx: &Ctx, case: &Value) -> Result<(bool, String), String> {
     let name = case["sketcher"].as_str().ok_or("sketcher")?;
-    let kinds = catalogue(&sizes(false), true);
+    let mut kinds = catalogue(&sizes(false), true);
+    kinds.extend(catalogue(&[65_535, 65_536, 65_537], true));
     let kind = kinds.iter().find(|k| k.name == name).ok_or("unknown sketcher kind")?;
     if case["kind"].as_str() == Some("long") {
         let (_, _, bad) = long_histories(std::slice::from_ref(kind));
